@@ -1078,13 +1078,15 @@ func fixedCorpus(utf8 bool) []Scenario {
 func runBatch(exe, dir string, idx int, scheme string, scs []Scenario, w *vgen.Writer, mu *sync.Mutex) map[int]Obs {
 	res := map[int]Obs{}
 	attempt := 0
+	watchdog := 120 * time.Second // an unloaded batch needs well under a second
+	retriedAfterTimeout := false
 	for len(scs) > 0 {
 		attempt++
 		in := fmt.Sprintf("%s/child_%s_%d_%d.in.json", dir, scheme, idx, attempt)
 		out := fmt.Sprintf("%s/child_%s_%d_%d.out.jsonl", dir, scheme, idx, attempt)
 		b, _ := json.Marshal(scs)
 		os.WriteFile(in, b, 0o644)
-		ctx, cancel := context.WithTimeout(context.Background(), 120*time.Second)
+		ctx, cancel := context.WithTimeout(context.Background(), watchdog)
 		cmd := exec.CommandContext(ctx, exe, "-child", "-scheme", scheme, "-in", in, "-outfile", out)
 		outb, err := cmd.CombinedOutput()
 		timedOut := ctx.Err() != nil
@@ -1119,6 +1121,23 @@ func runBatch(exe, dir string, idx int, scheme string, scs []Scenario, w *vgen.W
 			w.Violation("child process failed outside any scenario: "+err.Error(), map[string]any{"output": tail(string(outb), 1500)})
 			mu.Unlock()
 			break
+		}
+		if timedOut && !retriedAfterTimeout {
+			// the machine may simply be slow: everything that is not done runs once more under a watchdog 7 times longer;
+			// only a scenario that does not finish then is reported as a hang
+			retriedAfterTimeout = true
+			watchdog = 900 * time.Second
+			var again []Scenario
+			for _, sc := range scs {
+				if !done[sc.ID] {
+					again = append(again, sc)
+				}
+			}
+			mu.Lock()
+			w.Tally("inconclusive:batch-rerun-after-watchdog")
+			mu.Unlock()
+			scs = again
+			continue
 		}
 		var culprit Scenario
 		var rest []Scenario
